@@ -110,6 +110,8 @@ def smt_sort(ty):
             return PVal
         if ty[0] == 'func':
             return Obj
+        if ty[0] == 'bobj':
+            return T.Bytes        # an instance of a bytes subclass (RawPacketData): its content
     raise ValueError(f"no SMT sort for type {ty!r}")
 
 
